@@ -100,6 +100,14 @@ class StackGen:
                 for seq in itertools.product(full, repeat=n):
                     out.append([f"new cap={cap} exp=2"] + list(seq) + ["destroy"])
         out.append(["new_default", "push 1", "push 2", "pop", "peek", "destroy_cb"])
+        if focus in ("iter", "all"):
+            # iterator sessions interleaved with direct calls on the iterated stack
+            for cap in (2, 3):
+                for d in ("pop", "push 9", "filter_mut"):
+                    for a in ("it_next", "it_replace 6"):
+                        for b in ("it_next", "it_replace 5", "pop"):
+                            out.append([f"new cap={cap} exp=2", "push 1", "push 2", "push 3", "it_new", "it_next", "it_next", "it_next", d, "pop", a, b,
+                                        "it_next", "peek", "destroy"])
         # the same stack on both sides of the zip iterator, at fill levels 0..3 (full and with room)
         for cap in (1, 2, 3):
             for n in range(0, 4):
@@ -140,7 +148,7 @@ class StackGen:
             ops += self.recreate_other_triple(k, dst, rng.random() < 0.5, rng.randint(1, 8), rng.choice(FACTORS[2:]), vals)
             length += len(ops)
         table = [("push", 12), ("pop", 8), ("peek", 3), ("size", 1), ("map", 1), ("filter_mut", 1), ("mk_filter", 1.5),
-                 ("mk_new", 1), ("drop", 1), ("other", 6), ("iter_prog", 2), ("zip_prog", 1.5)]
+                 ("mk_new", 1), ("drop", 1), ("other", 6), ("iter_prog", 2), ("zip_prog", 1.5), ("iter_mixed_prog", 0.7)]
         if focus == "growth":
             length = rng.randint(60, 400)
             table = [("push", 30), ("pop", 10), ("peek", 2), ("filter_mut", 0.2), ("map", 0.2)]
@@ -149,7 +157,7 @@ class StackGen:
         elif focus == "fault":
             table = [("push", 14), ("pop", 4), ("mk_filter", 4), ("mk_new", 2), ("drop", 2), ("other", 5)]
         elif focus in ("iter", "all"):
-            table += [("iter_prog", 4), ("zip_prog", 3)]
+            table += [("iter_prog", 4), ("zip_prog", 3), ("iter_mixed_prog", 2.5)]
         elif focus == "derived":
             table += [("mk_filter", 4), ("other", 6), ("drop", 2)]
         names = [o for o, _ in table]
@@ -211,6 +219,28 @@ class StackGen:
                         v = pick_value(rng); ops.append(f"it_replace {v}{maybe_noout(rng)}"); xs[pos - 1] = v
                     if rng.random() < 0.05:
                         break
+            elif op == "iter_mixed_prog":
+                # an iterator session interleaved with direct calls on the iterated stack (legal for an
+                # index-based iterator): pushes and pops move the end of the stack under the cursor
+                k = rng.choice(sorted(L)); xs = L[k]; sfx = f" o={k}" if k else ""
+                ops.append("it_new" + sfx)
+                pos = 0
+                for _ in range(rng.randint(3, 14)):
+                    r = rng.random()
+                    if r < 0.5:
+                        ops.append("it_next")
+                        if pos < len(xs): pos += 1
+                    elif r < 0.65:
+                        v = pick_value(rng); ops.append(f"it_replace {v}{maybe_noout(rng)}")
+                        if 0 < pos <= len(xs): xs[pos - 1] = v
+                    elif r < 0.8:
+                        ops.append("pop" + sfx + maybe_noout(rng))
+                        if xs: xs.pop()
+                    elif r < 0.93:
+                        v = pick_value(rng); ops.append(f"push {v}{sfx}"); xs.append(v)
+                    else:
+                        ops.append("filter_mut" + sfx); xs[:] = [v for v in xs if v % 2 == 0]
+                    if rng.random() < 0.2: ops.append("peek" + sfx)
             elif op == "zip_prog":
                 if len(L) < 2:
                     to = free_slot()
@@ -236,6 +266,60 @@ class StackGen:
                 p_push = rng.choice([0.2, 0.5, 0.9])
         ops.append("destroy_cb" if rng.random() < 0.15 else "destroy")
         return ops
+
+    def scale(self, rng, tier):
+        """a few LONG sparse histories: 1100-1500 pushes from small and odd capacities, then several hundred
+        calls: pops and pushes around the growth boundaries, iterator sweeps with replacements interleaved
+        with pops, a zip with a second long stack, filter (the result grows from the default
+        capacity 8 through many growth steps), pop until empty and beyond; `observe` every ~50 calls"""
+        n_hist = 3 if tier == "quick" else 20
+        caps = [1, 7, 8, 9, 255, 256, 257, 300, 1000, 1023, 1024, 1025, 4100]
+        out = []
+        for h in range(n_hist):
+            cap = caps[(h * 4 + rng.randint(0, 2)) % len(caps)]
+            ex = ["1.01", "1.5", "2", "3"][h % 4]
+            n = rng.randint(1100, 1500)
+            ops = [f"new cap={cap} exp={ex} obs=sparse"]
+            gap = [rng.randint(35, 60)]
+
+            def emit(op):
+                ops.append(op)
+                gap[0] -= 1
+                if gap[0] <= 0:
+                    ops.append("observe"); gap[0] = rng.randint(35, 60)
+            size = 0
+            for i in range(n):
+                emit(f"push {i * 7 + 3 if rng.random() < 0.9 else pick_value(rng)}"); size += 1
+            for _ in range(rng.randint(250, 400)):
+                r = rng.random()
+                if r < 0.35: emit("pop" + maybe_noout(rng, 0.2)); size = max(0, size - 1)
+                elif r < 0.6: emit(f"push {10 ** 7 + rng.randint(0, 10 ** 6)}"); size += 1
+                elif r < 0.7: emit("peek")
+                elif r < 0.74: emit("size")
+                elif r < 0.8:
+                    emit("it_new")
+                    for _ in range(rng.randint(3, 30)):
+                        emit("it_next")
+                        q = rng.random()
+                        if q < 0.3: emit(f"it_replace {rng.randint(1, 99)}")
+                        elif q < 0.4: emit("pop"); size = max(0, size - 1)
+                elif r < 0.84:
+                    emit("mk_new to=2 cap=3 exp=1.5")
+                    for i in range(rng.randint(40, 300)): emit(f"push {i * 5 + 1} o=2")
+                    emit("zit_new o=0 p=2")
+                    for _ in range(rng.randint(5, 40)):
+                        emit("zit_next")
+                        if rng.random() < 0.3: emit(f"zit_replace {rng.randint(1, 99)} {rng.randint(1, 99)}")
+                    emit("observe"); emit("drop o=2")
+                elif r < 0.88:
+                    emit("mk_filter to=1"); emit("push 4 o=1"); emit("pop o=1"); emit("observe"); emit("drop o=1")
+                elif r < 0.9: emit("map")
+                else: emit("peek")
+            for _ in range(rng.randint(20, 60)):
+                emit("pop")
+            ops += ["observe", "peek", "destroy_cb" if h % 2 else "destroy"]
+            out.append(ops)
+        return out
 
     def recreate_other_triple(self, k=1, dst=2, conf_first=True, cap=2, ex="2", vals=(2, 5, 4, 7)):
         """a stack is built in slot k, used, destroyed, and immediately re-created in the same slot with the
